@@ -536,6 +536,13 @@ func (e *env) v2Witness(cs consensus.State, orig types.Block, kinds []string) {
 				rev.RenterSignature = foreignKey.SignHash(cs.ContractSigHash(*rev))
 				return true
 			})
+			variant("revision-hijack-rotates-both-keys-to-a-foreign-key-signed-by-that-key", true, func(tt *types.V2Transaction) bool {
+				rev := &tt.FileContractRevisions[k].Revision
+				rev.RenterPublicKey, rev.HostPublicKey = foreignKey.PublicKey(), foreignKey.PublicKey()
+				sig := foreignKey.SignHash(cs.ContractSigHash(*rev))
+				rev.RenterSignature, rev.HostSignature = sig, sig
+				return true
+			})
 			variant("revision-signatures-swapped", cur.RenterPublicKey != cur.HostPublicKey, func(tt *types.V2Transaction) bool {
 				rev := &tt.FileContractRevisions[k].Revision
 				rev.RenterSignature, rev.HostSignature = rev.HostSignature, rev.RenterSignature
